@@ -927,6 +927,12 @@ func (s *expSession) opDataReuse(i int, op plan.Op, ti *tmplInfo) {
 	for k := range specs {
 		total += encodedLen(specs[k], wires[k])
 	}
+	if lim := int(cfgOr(s.env.Plan, "limit", 0)); lim > 0 && total > lim && len(op.F) == 0 {
+		// the values of this path are not the ones opData's estimate saw: a message above the
+		// transport's limit (one DTLS record) is not part of the workload
+		s.set.ResetSet()
+		return
+	}
 	c := callRec{Op: i, Kind: "data", Slot: slot, Valid: true, MsgLen: total}
 	if total > 65535 {
 		c.Valid, c.Expect, c.Why = false, "error", fmt.Sprintf("message would be %d bytes", total)
